@@ -8,6 +8,9 @@
 //! Compared: implementation = model (ImplVsModel, exact representation, panics included),
 //! implementation = specification (ImplVsSpec, numbers by value), named = positional on the
 //! implementation alone (ImplVsSpec), no panic (ImplVsSpec `panic in <bif>`).
+//! `matches` / `replace` / `split` with flags, the flag q and empty delimiters: a written-out
+//! expectation (`regex_oracle`; the `regex` crate is not modelled).  `sort`: the stable arrangement
+//! under the ordering function as a direct invocation evaluates it (`sort_law`).
 
 use crate::model::Model;
 use crate::report::{Kind, Report};
@@ -152,6 +155,288 @@ fn extreme_numbers() -> Vec<&'static str> {
   ]
 }
 
+// ------------------------------------------------------------------------------------------------
+// Written-out expectation for `matches` / `replace` / `split` (the `regex` crate is not modelled):
+// the meaning of a pattern is known here when it is a literal (no metacharacters), under the flags
+// "", s, m, x (no effect on a literal), i (letter case ignored; only where no character has a non-ASCII
+// case mapping), and for ANY pattern text under the flag q of `replace` (every character stands for
+// itself, XPath F&O 3.0 5.6.1.1; q may be combined with i).  Flags outside the domain: a value that is
+// not a string (null = absent is left out), for `matches` also a string with a letter other than s m i x
+// (XPath F&O 2.0 7.6.1.1, error FORX0001 = null in FEEL).  A delimiter of `split` that matches the empty
+// string is an error of fn:tokenize (FORX0003) = null.
+
+/// sampling divisor: the thorough tier takes (nearly) the whole grid
+fn scale_div(thorough: bool) -> u64 {
+  if thorough {
+    1
+  } else {
+    2
+  }
+}
+
+/// inverse of `lit_str`
+fn unlit(t: &str) -> Option<String> {
+  if t.len() < 2 {
+    return None;
+  }
+  let inner = t.strip_prefix('"')?.strip_suffix('"')?;
+  let mut out = String::new();
+  let mut it = inner.chars();
+  while let Some(c) = it.next() {
+    match c {
+      '\\' => match it.next()? {
+        '"' => out.push('"'),
+        '\\' => out.push('\\'),
+        _ => return None,
+      },
+      '"' => return None,
+      c => out.push(c),
+    }
+  }
+  Some(out)
+}
+
+/// mirrors `Dmn.Bif.isMeta` (white space and `#` matter under the flag x)
+fn is_meta(c: char) -> bool {
+  "\\.+*?()|[]{}^$#&-~".contains(c) || c.is_whitespace()
+}
+
+fn literal_pattern(p: &str) -> bool {
+  !p.is_empty() && !p.chars().any(is_meta)
+}
+
+/// no character of the text has a case mapping outside ASCII (so "letter case ignored" is ASCII case folding)
+fn ascii_case_only(t: &str) -> bool {
+  t.chars().all(|c| c.is_ascii() || (c.to_lowercase().eq(std::iter::once(c)) && c.to_uppercase().eq(std::iter::once(c))))
+}
+
+fn same_char(a: char, b: char, ci: bool) -> bool {
+  if ci {
+    a.to_ascii_lowercase() == b.to_ascii_lowercase()
+  } else {
+    a == b
+  }
+}
+
+/// pieces of `s` between the non-overlapping occurrences (from the left) of the non-empty text `pat`
+fn split_lit(s: &str, pat: &str, ci: bool) -> Vec<String> {
+  let cs: Vec<char> = s.chars().collect();
+  let ps: Vec<char> = pat.chars().collect();
+  let mut out = vec![];
+  let mut cur = String::new();
+  let mut i = 0;
+  while i < cs.len() {
+    if i + ps.len() <= cs.len() && (0..ps.len()).all(|k| same_char(cs[i + k], ps[k], ci)) {
+      out.push(std::mem::take(&mut cur));
+      i += ps.len();
+    } else {
+      cur.push(cs[i]);
+      i += 1;
+    }
+  }
+  out.push(cur);
+  out
+}
+
+enum Want {
+  Null,
+  Bool(bool),
+  Str(String),
+  Strs(Vec<String>),
+}
+
+impl Want {
+  fn show(&self) -> String {
+    match self {
+      Want::Null => "null".to_string(),
+      Want::Bool(b) => b.to_string(),
+      Want::Str(s) => lit_str(s),
+      Want::Strs(v) => format!("[{}]", v.iter().map(|x| lit_str(x)).collect::<Vec<_>>().join(", ")),
+    }
+  }
+  fn is(&self, v: &Value) -> bool {
+    match (self, v) {
+      (Want::Null, Value::Null(_)) => true,
+      (Want::Bool(a), Value::Boolean(b)) => a == b,
+      (Want::Str(a), Value::String(b)) => a == b,
+      (Want::Strs(a), Value::List(items)) => {
+        let items = items.as_vec();
+        items.len() == a.len() && items.iter().zip(a.iter()).all(|(i, w)| matches!(i, Value::String(x) if x == w))
+      }
+      _ => false,
+    }
+  }
+}
+
+/// how a flags argument reads
+enum Flags {
+  Absent,
+  /// a string of distinct letters out of s m i x q
+  Letters(String),
+  /// a string with another character, or with a repeated letter
+  OtherString(String),
+  /// the literal null (absent or outside the domain: left open)
+  NullLiteral,
+  /// a value that is not a string
+  NotAString,
+}
+
+fn read_flags(arg: Option<&String>) -> Flags {
+  match arg {
+    None => Flags::Absent,
+    Some(t) if t == "null" => Flags::NullLiteral,
+    Some(t) => match unlit(t) {
+      Some(f) => {
+        let distinct = f.chars().enumerate().all(|(i, c)| !f.chars().take(i).any(|d| d == c));
+        if f.chars().all(|c| "smixq".contains(c)) && distinct {
+          Flags::Letters(f)
+        } else {
+          Flags::OtherString(f)
+        }
+      }
+      None if t.starts_with('"') => Flags::OtherString(t.clone()),
+      None => Flags::NotAString,
+    },
+  }
+}
+
+/// The specified value of a `matches` / `replace` / `split` call and the signature of a deviation, where this
+/// module knows it (see above); arguments are the literal texts of the call.
+fn regex_oracle(call: &Call) -> Option<(Want, &'static str)> {
+  let a = &call.args;
+  match (call.bif, a.len()) {
+    ("matches", 2) | ("matches", 3) => {
+      let (s, p) = (unlit(&a[0])?, unlit(&a[1])?);
+      let verdict = |ci: bool| -> Option<Want> {
+        if p.is_empty() {
+          Some(Want::Bool(true))
+        } else if literal_pattern(&p) && (!ci || (ascii_case_only(&p) && ascii_case_only(&s))) {
+          Some(Want::Bool(split_lit(&s, &p, ci).len() > 1))
+        } else {
+          None
+        }
+      };
+      match read_flags(a.get(2)) {
+        Flags::Absent => Some((verdict(false)?, "matches differs from the literal-pattern semantics")),
+        Flags::Letters(f) if f.is_empty() => Some((verdict(false)?, "matches: an empty flags string is rejected")),
+        Flags::Letters(f) if !f.contains('q') => Some((verdict(f.contains('i'))?, "matches differs from the literal-pattern semantics under the flags s m i x")),
+        Flags::Letters(_) => None,
+        Flags::OtherString(f) if unlit(&a[2]).is_some() && f.chars().any(|c| !"smixq".contains(c)) => Some((Want::Null, "matches: a flags string with a letter other than s m i x is accepted")),
+        Flags::OtherString(_) | Flags::NullLiteral => None,
+        Flags::NotAString => Some((Want::Null, "matches: flags that are not a string are ignored")),
+      }
+    }
+    ("replace", 3) | ("replace", 4) => {
+      let (s, p, r) = (unlit(&a[0])?, unlit(&a[1])?, unlit(&a[2])?);
+      if p.is_empty() || r.contains('$') || r.contains('\\') {
+        return None;
+      }
+      let verdict = |ci: bool, quoted: bool| -> Option<Want> {
+        if (quoted || literal_pattern(&p)) && (!ci || (ascii_case_only(&p) && ascii_case_only(&s))) {
+          Some(Want::Str(split_lit(&s, &p, ci).join(&r)))
+        } else {
+          None
+        }
+      };
+      match read_flags(a.get(3)) {
+        Flags::Absent => Some((verdict(false, false)?, "replace differs from the literal-pattern semantics")),
+        Flags::Letters(f) => {
+          let ci = f.contains('i');
+          if f.contains('q') && !f.chars().any(|c| "smx".contains(c)) {
+            // q alone or with i: every pattern text is a literal
+            Some((verdict(ci, true)?, "replace: under the flag q a character of the pattern does not stand for itself"))
+          } else {
+            // q with s / m / x: XPath lets q win, the code lets the other flag win; both agree on a literal pattern
+            Some((verdict(ci, false)?, "replace differs from the literal-pattern semantics under flags"))
+          }
+        }
+        // unknown letters are ignored by `replace` (pinned by the repository test bif_replace::_0031): left open
+        Flags::OtherString(_) | Flags::NullLiteral => None,
+        Flags::NotAString => Some((Want::Null, "replace: flags that are not a string are ignored")),
+      }
+    }
+    ("split", 2) => {
+      let (s, d) = (unlit(&a[0])?, unlit(&a[1])?);
+      if d.is_empty() {
+        Some((Want::Null, "split: a delimiter that matches the empty string is accepted"))
+      } else if literal_pattern(&d) {
+        Some((Want::Strs(split_lit(&s, &d, false)), "split differs from the literal-delimiter semantics"))
+      } else {
+        None
+      }
+    }
+    _ => None,
+  }
+}
+
+/// ordering functions with typed parameters and the name of the relation the driver knows them by
+const TYPED_ORDERINGS: &[(&str, &str)] = &[
+  ("function(x: number, y: number) x < y", "lt:number"),
+  ("function(x: number, y: number) x > y", "gt:number"),
+  ("function(x: string, y: string) x < y", "lt:string"),
+  ("function(x: string, y: string) x >= y", "ge:string"),
+  ("function(x: boolean, y: boolean) x != y", "ne:boolean"),
+  ("function(x: Any, y: Any) x < y", "lt:Any"),
+];
+
+/// `sort(list, f)` against the law: when the relation `f(x, y) = true`, with `f` invoked directly (so with the
+/// conversions of an invocation), is a strict weak order on the items, the result is the one stable arrangement of
+/// the items in that order.  `None`: the law does not apply (the list or the relation is not of that kind).
+fn sort_law(scope: &Scope, list: &str, f: &str) -> Option<Vec<String>> {
+  let items: Vec<String> = match run_impl(scope, list) {
+    Impl::Val(Value::List(items)) => items.as_vec().iter().map(|v| value_sexp(v).map(|s| s.to_string())).collect::<Option<Vec<_>>>()?,
+    _ => return None,
+  };
+  let n = items.len();
+  if n > 12 {
+    return None;
+  }
+  let table = match run_impl(scope, &format!("{{l: {}, f: {}, r: for i in l return for j in l return f(i, j)}}.r", list, f)) {
+    Impl::Val(Value::List(rows)) => rows,
+    _ => return None,
+  };
+  let mut r = vec![vec![false; n]; n];
+  if table.as_vec().len() != n {
+    return None;
+  }
+  for (i, row) in table.as_vec().iter().enumerate() {
+    match row {
+      Value::List(cells) if cells.as_vec().len() == n => {
+        for (j, c) in cells.as_vec().iter().enumerate() {
+          r[i][j] = matches!(c, Value::Boolean(true));
+        }
+      }
+      _ => return None,
+    }
+  }
+  // strict weak order: irreflexive, transitive, incomparability transitive
+  let inc = |i: usize, j: usize| !r[i][j] && !r[j][i];
+  for i in 0..n {
+    if r[i][i] {
+      return None;
+    }
+    for j in 0..n {
+      if r[i][j] && r[j][i] {
+        return None;
+      }
+      for k in 0..n {
+        if (r[i][j] && r[j][k] && !r[i][k]) || (inc(i, j) && inc(j, k) && !inc(i, k)) {
+          return None;
+        }
+      }
+    }
+  }
+  let mut order: Vec<usize> = vec![];
+  for i in 0..n {
+    let mut k = order.len();
+    while k > 0 && r[i][order[k - 1]] {
+      k -= 1;
+    }
+    order.insert(k, i);
+  }
+  Some(order.into_iter().map(|i| items[i].clone()).collect())
+}
+
 fn generate(rng: &mut Rng, thorough: bool) -> Vec<Call> {
   let mut calls: Vec<Call> = vec![];
   let mut add = |bif: &'static str, args: Vec<String>, family: &'static str| calls.push(Call { bif, args, family });
@@ -223,6 +508,48 @@ fn generate(rng: &mut Rng, thorough: bool) -> Vec<Call> {
         add("replace", vec![lit_str(s), lit_str(&swapped), lit_str("X")], "regex-flag-sequence");
         add("split", vec![lit_str(s), lit_str(&swapped)], "regex-flag-sequence");
       }
+    }
+  }
+
+  // ---------------------------------------------------------------- flags of matches / replace, the flag q, empty delimiters
+  // (expectation: `regex_oracle`)
+  {
+    let inputs = ["abc", "a.c", "A.C", "a.c.abc", "1+1=2", "x*y", "(a)", "a|b", "[a]", "a\\b", "^a$", "ab d", "aXbxc", "abcABC", "", "日本.語", "a🙏.c"];
+    let patterns = ["b", "a", "B", ".", "a.c", "+", "1+1", "*", "x*", "(a)", "a|b", "|", "[a]", "\\", "\\b", "\\d", "^a", "$", "b d", "x", "abc", "本.", "🙏.", ""];
+    let string_flags = ["\"\"", "\"i\"", "\"s\"", "\"m\"", "\"x\"", "\"q\"", "\"qi\"", "\"iq\"", "\"sm\"", "\"smix\"", "\"xi\"", "\"qs\"", "\"xq\"", "\"qm\""];
+    let other_flags = ["5", "true", "[\"i\"]", "{a: 1}", "0", "[]"];
+    let bad_letters = ["\"z\"", "\"I\"", "\"i \"", "\"si!\"", "\" \""];
+    for (n, s) in inputs.iter().enumerate() {
+      for (k, p) in patterns.iter().enumerate() {
+        // the witnesses in full, the rest of the grid sampled
+        let core = n < 4 && k < 6;
+        let (ls, lp) = (format!("\"{}\"", s), format!("\"{}\"", p));
+        if core || rng.chance(1, 3) {
+          add("matches", vec![ls.clone(), lp.clone()], "regex-oracle");
+          add("replace", vec![ls.clone(), lp.clone(), "\"#\"".into()], "regex-oracle");
+          add("split", vec![ls.clone(), lp.clone()], "regex-oracle");
+        }
+        for fl in string_flags {
+          if core || rng.chance(1, 4 * scale_div(thorough)) {
+            add("matches", vec![ls.clone(), lp.clone(), fl.into()], "regex-oracle");
+            add("replace", vec![ls.clone(), lp.clone(), "\"#\"".into(), fl.into()], "regex-oracle");
+          }
+        }
+        for fl in other_flags {
+          if (core && k < 2) || rng.chance(1, 12 * scale_div(thorough)) {
+            add("matches", vec![ls.clone(), lp.clone(), fl.into()], "regex-oracle-flags-type");
+            add("replace", vec![ls.clone(), lp.clone(), "\"#\"".into(), fl.into()], "regex-oracle-flags-type");
+          }
+        }
+        for fl in bad_letters {
+          if (core && k < 2) || rng.chance(1, 16 * scale_div(thorough)) {
+            add("matches", vec![ls.clone(), lp.clone(), fl.into()], "regex-oracle-flags-type");
+          }
+        }
+      }
+    }
+    for s in &strings {
+      add("split", vec![lit_str(s), "\"\"".into()], "regex-oracle");
     }
   }
 
@@ -323,6 +650,23 @@ fn generate(rng: &mut Rng, thorough: bool) -> Vec<Call> {
   add("sort", vec!["[\"b\", \"a\", \"c\"]".into(), "function(a,b) a < b".into()], "sort");
   add("sort", vec!["[3, 1, 2]".into(), "function(x) x".into()], "sort");
   add("sort", vec!["[3, 1, 2]".into(), "1".into()], "sort");
+  // sort with an ordering function that has typed parameters: the items are converted as in an invocation
+  // (a string given to a parameter of type number is null, a list of one number is that number)
+  {
+    let mut typed_lists: Vec<String> = ["[\"b\", \"a\"]", "[\"b\", \"a\", \"c\", \"a\"]", "[3, 1, 2]", "[3, 1, 2, 1.0, 3.0]", "[2, \"a\", 1]", "[[2], [1]]", "[[2], 1, [3]]", "[null, 2, 1]", "[true, false, true]", "[[2, 1], [1]]", "[]", "[\"b\"]", "[{a: 1}, 2, 1]"]
+      .iter()
+      .map(|x| x.to_string())
+      .collect();
+    for _ in 0..(if thorough { 120 } else { 12 }) {
+      let len = rng.below(6) as usize;
+      typed_lists.push(list_of_len(rng, len));
+    }
+    for l in &typed_lists {
+      for (f, _) in TYPED_ORDERINGS {
+        add("sort", vec![l.clone(), (*f).into()], "sort-typed");
+      }
+    }
+  }
   // sort with ordering functions that are and are not total orders, on lists long enough for a library sort to notice
   for _ in 0..(if thorough { 600 } else { 60 }) {
     let n = rng.below(45) as usize;
@@ -771,7 +1115,7 @@ pub fn run(cfg: &Cfg) -> Report {
         "function(x,y) x = y" => Some("eq"),
         "function(x,y) true" => Some("true"),
         "function(x,y) false" => Some("false"),
-        _ => None,
+        f => TYPED_ORDERINGS.iter().find(|(t, _)| *t == f).map(|(_, r)| *r),
       }
     } else {
       None
@@ -877,6 +1221,45 @@ pub fn run(cfg: &Cfg) -> Report {
             }
           }
         }
+      }
+    }
+    // ---- matches / replace / split against the written-out expectation (flags, q, empty delimiter)
+    if let Some((want, sig)) = regex_oracle(&d.call) {
+      rep.hit("regex-oracle:judged");
+      let forms: Vec<(&Impl, String)> = std::iter::once((&d.pos, input.clone())).chain(d.named.iter().zip(d.named_text.iter()).map(|(n, t)| (n, input_of(&d.call, t)))).collect();
+      for (imp, inp) in forms {
+        if let Impl::Val(v) = imp {
+          if !want.is(v) {
+            let trimmed = matches!((&want, v), (Want::Str(w), Value::String(g)) if w.trim() == g.as_str());
+            let sig = if trimmed { "replace: the result is trimmed" } else { sig };
+            rep.disagree(Kind::ImplVsSpec, "regex-oracle", sig, &inp, &show_impl(imp), &want.show());
+          }
+        }
+      }
+    }
+    // ---- sort = the stable arrangement under the ordering function as a direct invocation evaluates it
+    // (ordering functions of two parameters: any other second argument is outside the domain)
+    let two_parameters = |f: &str| f.strip_prefix("function(").and_then(|t| t.split_once(')')).map(|(ps, _)| ps.split(',').count() == 2 && !ps.trim().is_empty()).unwrap_or(false);
+    if bif == "sort" && d.call.args.len() == 2 && two_parameters(&d.call.args[1]) {
+      match sort_law(&scope, &d.call.args[0], &d.call.args[1]) {
+        Some(want) => {
+          rep.hit("sort-law:applies");
+          let got: Option<Vec<String>> = match &d.pos {
+            Impl::Val(Value::List(items)) => items.as_vec().iter().map(|v| value_sexp(v).map(|s| s.to_string())).collect(),
+            _ => None,
+          };
+          if got.as_ref() != Some(&want) {
+            rep.disagree(
+              Kind::ImplVsSpec,
+              "sort-law",
+              "sort differs from the stable arrangement under the ordering function as a direct invocation evaluates it (parameter types)",
+              &input,
+              &shown,
+              &format!("(ok (list {}))", want.join(" ")),
+            );
+          }
+        }
+        None => rep.hit("sort-law:not a strict weak order"),
       }
     }
     // ---- named = positional on the implementation alone
